@@ -552,6 +552,36 @@ pub fn check(ctx: &mut Ctx, id: &'static str) {
             }
             ctx.random("ast-documents", 400, 250_000, 15_000_000, |t| gen(t, which), oracle_c15);
             ctx.reshrink::<AstCase, _, _>("ast-documents", oracle_c15, crate::props::clean::shrink_ast);
+            // "a pure function of source and configuration": the process environment (colour conventions, terminal, locale,
+            // zone) has no influence. One unit, so that no other case runs while the variables are set.
+            ctx.exhaustive("environment", "list / list_all, pretty and JSON, called again with NO_COLOR, CLICOLOR, CLICOLOR_FORCE, TERM, LANG, LC_ALL, TZ, COLUMNS set: identical strings", vec![0u8], |_, obs| {
+                let src = "a\n  <rm name='a'>\n\tx\n  </rm> t\nb <tl to=\"2999-01-01 00:00:00\">p</tl>\n<rm name='a' unwrap-block>\nif (x) {\n  y\n}\n</rm>\n";
+                let cfg = Cfg::simple("<", ">");
+                let call_all = || -> Vec<Result<String, String>> { vec![call_list(src, &cfg, false, false), call_list(src, &cfg, false, true), call_list(src, &cfg, true, false), call_list(src, &cfg, true, true)] };
+                let before = call_all();
+                let vars = [("NO_COLOR", "1"), ("CLICOLOR", "0"), ("CLICOLOR_FORCE", "1"), ("TERM", "dumb"), ("LANG", "ja_JP.UTF-8"), ("LC_ALL", "C"), ("TZ", "America/Los_Angeles"), ("COLUMNS", "20")];
+                let saved: Vec<(&str, Option<std::ffi::OsString>)> = vars.iter().map(|(k, _)| (*k, std::env::var_os(k))).collect();
+                let mut failure = None;
+                for (k, v) in vars {
+                    std::env::set_var(k, v);
+                    obs.eval();
+                    let after = call_all();
+                    if after != before {
+                        failure = Some(fail_case("environment", &json!({"variable": k, "value": v}), format!("with {k}={v} in the process environment a list call returns a different string than before (listing must be a function of source and configuration only)\n  before = {:?}\n  after  = {:?}", before.iter().map(|r| r.as_ref().map(|s| truncate(s, 200))).collect::<Vec<_>>(), after.iter().map(|r| r.as_ref().map(|s| truncate(s, 200))).collect::<Vec<_>>())));
+                        break;
+                    }
+                }
+                for (k, v) in saved {
+                    match v {
+                        Some(v) => std::env::set_var(k, v),
+                        None => std::env::remove_var(k),
+                    }
+                }
+                if failure.is_none() {
+                    obs.nontrivial_counted(|| json!({"variables": vars.iter().map(|(k, _)| *k).collect::<Vec<_>>()}));
+                }
+                failure
+            });
             // long files: line numbers of regions far down, a region on the last line with / without a final line break
             let units: Vec<u64> = vec![7, 125, 253, 1_021, 65_533, 999_997];
             ctx.exhaustive("large-documents", "6 files x 2 (with / without final line break) that begin with 7 .. 999 997 line breaks: count, line ranges and code blocks of the listed regions", units, |n, obs| {
@@ -574,8 +604,8 @@ pub fn check(ctx: &mut Ctx, id: &'static str) {
             ctx.reshrink::<AstCase, _, _>("ast-documents", oracle_c16, crate::props::clean::shrink_ast);
             // items far down in long files: the number column must stay fixed-width when the line numbers of one item
             // differ in their number of digits (9 -> 10, 99 -> 100, ..., 9 999 999 -> 10 000 000)
-            let units: Vec<u64> = vec![7, 97, 125, 253, 997, 9_997, 65_533, 99_997, 999_997, 9_999_997];
-            ctx.exhaustive("large-line-numbers", "10 files x 2 (with / without final line break) that begin with 10^k - 3 (k = 1..7), 125, 253 or 65 533 line breaks, so that the lines of the listed items cross a power of ten / of two; a region on the last line; list and list_all, JSON and pretty", units, |n, obs| {
+            let units: Vec<u64> = vec![5, 6, 7, 96, 97, 125, 253, 997, 9_996, 9_997, 65_533, 99_997, 999_994, 999_996, 999_997, 9_999_994, 9_999_995, 9_999_996, 9_999_997];
+            ctx.exhaustive("large-line-numbers", "19 files x 2 (with / without final line break) that begin with 10^k - 3 .. 10^k - 6 (k = 1..7), 125, 253 or 65 533 line breaks, so that listed items cross, end exactly at, or begin exactly at a power of ten; a region on the last line; list and list_all, JSON and pretty", units, |n, obs| {
                 obs.eval();
                 match large_line_numbers(*n) {
                     Ok(()) => {
@@ -646,6 +676,22 @@ fn large_document(n: u64, final_newline: bool) -> Result<(), String> {
 }
 
 pub fn replay(id: &str, sub: &str, case: &Value, obs: &mut Obs) -> Result<Verdict, String> {
+    if sub == "environment" {
+        let k = case["variable"].as_str().unwrap_or("NO_COLOR").to_string();
+        let v = case["value"].as_str().unwrap_or("1").to_string();
+        let src = "a\n  <rm name='a'>\n\tx\n  </rm> t\n";
+        let cfg = Cfg::simple("<", ">");
+        let before = call_list(src, &cfg, false, false);
+        let saved = std::env::var_os(&k);
+        std::env::set_var(&k, &v);
+        let after = call_list(src, &cfg, false, false);
+        match saved {
+            Some(s) => std::env::set_var(&k, s),
+            None => std::env::remove_var(&k),
+        }
+        obs.eval();
+        return Ok(if before != after { Verdict::Fail(format!("with {k}={v} the pretty list differs")) } else { Verdict::Pass });
+    }
     if sub == "large-line-numbers" {
         let n = case["leading_line_breaks"].as_u64().ok_or("no leading_line_breaks")?;
         obs.eval();
